@@ -104,7 +104,14 @@ def build(case):
         qa, qb = jitter(an), jitter(bn)
         q = D("q", "torch.distributions.Gamma", "z", concentration=P("q.a", [qa]), rate=P("q.b", [qb]))
         ref = {"logq": lambda z: stats.gamma.logpdf(z, qa, scale=1 / qb).sum(-1), "entropy": stats.gamma.entropy(qa, scale=1 / qb)}
-        return {"p": p, "q": q, "joint_terms": ["prior", "lik"], "logZ": logZ, "ref": ref, "latent": "z", "qparam": "q.a"}
+        terms = ["prior", "lik"]
+        if case["seed"] % 4 == 1:
+            # a factor of the joint that involves no sampled variable (a hyper-prior on a quantity held fixed): a constant added to log Z
+            h0 = float(gm.loguniform(rng, 0.5, 3))
+            p.append(D("hyper", "torch.distributions.Gamma", P("hyper.x", [h0]), concentration=2.0, rate=1.5))
+            terms = ["hyper", "prior", "lik"]
+            logZ += float(stats.gamma.logpdf(h0, 2.0, scale=1 / 1.5))
+        return {"p": p, "q": q, "joint_terms": terms, "logZ": logZ, "ref": ref, "latent": "z", "qparam": "q.a"}
     if fam == "gamma-poisson":
         a, b = float(gm.loguniform(rng, 0.3, 5)), float(gm.loguniform(rng, 0.3, 5))
         x = rng.poisson(float(gm.loguniform(rng, 0.3, 6)), n).astype(float)
@@ -464,7 +471,9 @@ def run_case(case):
             if (len(shape) == 2 and o in ("KLpq", "VR", "CUBO")) or (case["qform"] == "bare" and len(shape) == 2):
                 C["declined_shapes"] += 1  # an undocumented shape combination that fails with an error: accepted
                 return {"violations": V, "counters": C, "fingerprint": None, "sample": None}
-            if case.get("mvn_class_likelihood"):
+            if "hyper" in b.get("joint_terms", []) and isinstance(e, RuntimeError) and "same number of dimensions" in str(e):
+                V.append(tt.viol("C14:joint-with-a-sample-independent-term:raises", "a joint with a factor that involves no sampled variable (a hyper-prior on a fixed quantity) cannot be evaluated once the latent carries a sample dimension: %s: %s" % (type(e).__name__, str(e)[:120]), **detail))
+            elif case.get("mvn_class_likelihood"):
                 V.append(tt.viol("C14:mvn-class-as-likelihood-term:raises", "a MultivariateNormal model used as likelihood term (data as x, sampled location) cannot be evaluated inside the joint: %s: %s" % (type(e).__name__, str(e)[:120]), **detail))
             else:
                 V.append(tt.viol("C14:raises:%s:%s" % (tag, type(e).__name__), "%s on %s with samples %s raises %s: %s" % (o, fam, list(shape), type(e).__name__, str(e)[:150]), **detail))
